@@ -1,6 +1,7 @@
 import NavisModel.Model.Prune
 import NavisModel.Proofs.RerootLemmas
 import NavisModel.Proofs.PruneLemmas
+import NavisModel.Proofs.ExactPruneLemmas
 /-!
 # C12 — pruning keeps exactly the nodes its criterion defines
 
@@ -315,6 +316,194 @@ theorem depth_keep_mono_sublist (t : Table) (len : Int → Int → Nat) (src : I
   rw [this]
   exact List.filter_sublist
 
+/-! ### `prune_twigs(exact=True)`: exactly `size` of cable comes off every tip
+
+`exactPrune t len size` lists `(id, parent, τ)`; `H j` below is the height of `j` (largest path length
+down to a tip distal to it) as a rational, at the fuel `exactPrune` itself uses. -/
+
+/-- **What every output row is.**  A row `(i, p, τ)` is a row of the table (same id, same parent).
+If `i` is farther than `size` from its farthest tip it is untouched (`τ = 0`).  Otherwise it is a root
+(never moved, `τ = 0`) or it is the new tip of the edge to a parent that is itself farther than `size`
+from its farthest tip: `0 ≤ τ ≤ 1`, and — when the edge has positive length — the new tip is *exactly*
+`size` of cable away from the farthest original tip below it. -/
+theorem exact_spec (t : Table) (len : Int → Int → Nat) (size : Rat) (i p : Int) (τ : Rat)
+    (hr : (i, p, τ) ∈ exactPrune t len size) :
+    ∃ n ∈ t, n.id = i ∧ n.parent = p ∧
+      (size < (heightOf t len (t.length + 1) i : Nat) → τ = 0) ∧
+      (((heightOf t len (t.length + 1) i : Nat) : Rat) ≤ size →
+        (p < 0 ∧ τ = 0) ∨
+        (size < (heightOf t len (t.length + 1) p : Nat) ∧ 0 ≤ τ ∧ τ ≤ 1 ∧
+          (len i p ≠ 0 → ((heightOf t len (t.length + 1) i : Nat) : Rat) + τ * (len i p : Nat) = size))) := by
+  obtain ⟨n, hn, hrow⟩ := Navis.ExactPrune.mem_exactPrune.mp hr
+  refine ⟨n, hn, ?_⟩
+  have hL0 : (0 : Rat) ≤ ((len n.id n.parent : Nat) : Rat) := by exact_mod_cast Nat.zero_le _
+  rcases Navis.ExactPrune.exactRow_cases t len size n with
+    ⟨h1, e⟩ | ⟨h1, h2, e⟩ | ⟨_, _, _, e⟩ | ⟨_, _, _, _, e⟩ | ⟨h1, h2, h3, h4, e⟩
+  · rw [e] at hrow; cases hrow
+    exact ⟨rfl, rfl, fun _ => rfl, fun h => absurd h (Rat.not_le.mpr h1)⟩
+  · rw [e] at hrow; cases hrow
+    exact ⟨rfl, rfl, fun _ => rfl, fun _ => Or.inl ⟨h2, rfl⟩⟩
+  · rw [e] at hrow; exact absurd hrow (by simp)
+  · rw [e] at hrow; exact absurd hrow (by simp)
+  · rw [e] at hrow; cases hrow
+    obtain ⟨t0, t1, t2⟩ := Navis.ExactPrune.tau_facts h1 hL0 h4
+    refine ⟨rfl, rfl, fun h => absurd h1 (Rat.not_le.mpr h), fun _ => Or.inr ⟨h3, t0, t1, fun hne => t2 ?_⟩⟩
+    intro h0; exact hne (by exact_mod_cast h0)
+
+/-- **What is removed** (row form; no hypothesis on the table).  The row of `n` is absent from the
+result iff `n` is within `size` of all its tips, is not a root, and either its parent is also within
+`size` of all its tips or the edge to the parent is too short to carry the new tip. -/
+theorem exact_removed (t : Table) (len : Int → Int → Nat) (size : Rat) (n : Node) (hn : n ∈ t) :
+    (∀ τ, (n.id, n.parent, τ) ∉ exactPrune t len size) ↔
+      (((heightOf t len (t.length + 1) n.id : Nat) : Rat) ≤ size ∧ ¬ n.parent < 0 ∧
+        (((heightOf t len (t.length + 1) n.parent : Nat) : Rat) ≤ size ∨
+         ((len n.id n.parent : Nat) : Rat) < size - (heightOf t len (t.length + 1) n.id : Nat))) := by
+  constructor
+  · intro habs
+    rcases Navis.ExactPrune.exactRow_cases t len size n with
+      ⟨_, e⟩ | ⟨_, _, e⟩ | ⟨h1, h2, h3, _⟩ | ⟨h1, h2, _, h4, _⟩ | ⟨_, _, _, _, e⟩
+    · exact absurd (Navis.ExactPrune.mem_exactPrune.mpr ⟨n, hn, e⟩) (habs _)
+    · exact absurd (Navis.ExactPrune.mem_exactPrune.mpr ⟨n, hn, e⟩) (habs _)
+    · exact ⟨h1, h2, Or.inl h3⟩
+    · exact ⟨h1, h2, Or.inr h4⟩
+    · exact absurd (Navis.ExactPrune.mem_exactPrune.mpr ⟨n, hn, e⟩) (habs _)
+  · rintro ⟨c1, c2, c3⟩ τ hmem
+    obtain ⟨m, _, hrow⟩ := Navis.ExactPrune.mem_exactPrune.mp hmem
+    obtain ⟨e1, e2⟩ := Navis.ExactPrune.exactRow_fst hrow
+    simp only at e1 e2
+    rcases Navis.ExactPrune.exactRow_cases t len size m with
+      ⟨h1, _⟩ | ⟨_, h2, _⟩ | ⟨_, _, _, e⟩ | ⟨_, _, _, _, e⟩ | ⟨_, _, h3, h4, _⟩
+    · rw [← e1] at h1; exact absurd c1 (Rat.not_le.mpr h1)
+    · rw [← e2] at h2; exact c2 h2
+    · rw [e] at hrow; exact absurd hrow (by simp)
+    · rw [e] at hrow; exact absurd hrow (by simp)
+    · rw [← e1, ← e2] at h4; rw [← e2] at h3
+      rcases c3 with c3 | c3
+      · exact absurd c3 (Rat.not_le.mpr h3)
+      · exact h4 c3
+
+/-- … and in id form, for tables with unique ids: the *id* of `n` is absent from the result. -/
+theorem exact_removed_id (t : Table) (hnd : (ids t).Nodup) (len : Int → Int → Nat) (size : Rat) (n : Node) (hn : n ∈ t) :
+    n.id ∉ (exactPrune t len size).map (·.1) ↔
+      (((heightOf t len (t.length + 1) n.id : Nat) : Rat) ≤ size ∧ ¬ n.parent < 0 ∧
+        (((heightOf t len (t.length + 1) n.parent : Nat) : Rat) ≤ size ∨
+         ((len n.id n.parent : Nat) : Rat) < size - (heightOf t len (t.length + 1) n.id : Nat))) := by
+  rw [← exact_removed t len size n hn]
+  constructor
+  · intro h τ hm
+    exact h (List.mem_map.mpr ⟨_, hm, rfl⟩)
+  · intro h hm
+    obtain ⟨r, hr, hid⟩ := List.mem_map.mp hm
+    obtain ⟨m, hm', hrow⟩ := Navis.ExactPrune.mem_exactPrune.mp hr
+    obtain ⟨e1, e2⟩ := Navis.ExactPrune.exactRow_fst hrow
+    have hfm := find?_of_mem hnd hm'
+    have hfn := find?_of_mem hnd hn
+    rw [← e1, hid, hfn] at hfm
+    simp only [Option.some.injEq] at hfm
+    subst hfm
+    obtain ⟨i, p, τ⟩ := r
+    simp only at e1 e2
+    subst e1; subst e2
+    exact h τ hr
+
+/-- **Height recurrence** in a well-formed forest (at the fuel `exactPrune` uses on both sides): the
+height of a node is the maximum over its children `c` of `len c i + height c`, and `0` for a leaf. -/
+theorem heightOf_recurrence (t : Table) (hw : WF t) (len : Int → Int → Nat) (i : Int) (hi : i ∈ ids t) :
+    heightOf t len (t.length + 1) i =
+      ((children t i).map fun c => len c i + heightOf t len (t.length + 1) c).foldl max 0 :=
+  Navis.ExactPrune.heightOf_rec hw len hi
+
+/-- … spelled out as a maximum: an upper bound of all children's contributions that is attained (or is
+`0` when there is no child). -/
+theorem heightOf_is_max (t : Table) (hw : WF t) (len : Int → Int → Nat) (i : Int) (hi : i ∈ ids t) :
+    (∀ c ∈ children t i, len c i + heightOf t len (t.length + 1) c ≤ heightOf t len (t.length + 1) i) ∧
+    ((children t i = [] ∧ heightOf t len (t.length + 1) i = 0) ∨
+     ∃ c ∈ children t i, heightOf t len (t.length + 1) i = len c i + heightOf t len (t.length + 1) c) := by
+  rw [heightOf_recurrence t hw len i hi]
+  constructor
+  · intro c hc
+    exact Navis.ExactPrune.le_foldl_max_of_mem 0 (List.mem_map.mpr ⟨c, hc, rfl⟩)
+  · cases hch : children t i with
+    | nil => exact Or.inl ⟨rfl, rfl⟩
+    | cons a l =>
+      right
+      rcases Navis.ExactPrune.foldl_max_mem (((a :: l).map fun c => len c i + heightOf t len (t.length + 1) c)) 0 with h | h
+      · refine ⟨a, by simp, ?_⟩
+        have := Navis.ExactPrune.le_foldl_max_of_mem (l := (a :: l).map fun c => len c i + heightOf t len (t.length + 1) c) 0
+          (List.mem_map.mpr ⟨a, by simp, rfl⟩)
+        omega
+      · obtain ⟨c, hc, he⟩ := List.mem_map.mp h
+        exact ⟨c, hc, he.symm⟩
+
+theorem heightOf_leaf (t : Table) (len : Int → Int → Nat) (f : Nat) (i : Int) (h : children t i = []) :
+    heightOf t len f i = 0 := Navis.ExactPrune.heightOf_leaf t len f i h
+
+/-- **Fuel independence** of the height. -/
+theorem heightOf_fuel_independent (t : Table) (hw : WF t) (len : Int → Int → Nat) (i : Int) (hi : i ∈ ids t)
+    (f : Nat) (hf : t.length ≤ f) : heightOf t len f i = heightOf t len (t.length + 1) i :=
+  Navis.ExactPrune.heightOf_fuel hw len hi f hf
+
+/-- The height grows by at least the edge length along every parent link. -/
+theorem height_parent_ge (t : Table) (hw : WF t) (len : Int → Int → Nat) (n : Node) (hn : n ∈ t) (hp : ¬ n.parent < 0) :
+    heightOf t len (t.length + 1) n.parent ≥ heightOf t len (t.length + 1) n.id + len n.id n.parent :=
+  Navis.ExactPrune.height_child_le hw len hn hp
+
+/-- Untouched nodes are closed under taking parents. -/
+theorem exact_untouched_up (t : Table) (hw : WF t) (len : Int → Int → Nat) (size : Rat) (n : Node) (hn : n ∈ t)
+    (hp : ¬ n.parent < 0) (h : size < (heightOf t len (t.length + 1) n.id : Nat)) :
+    size < (heightOf t len (t.length + 1) n.parent : Nat) := by
+  have h2 := Navis.ExactPrune.H_parent_ge' hw len hn hp
+  unfold Navis.ExactPrune.H at h2
+  grind
+
+/-- **The result is a forest on the kept ids**: the parent named by any output row is itself an output
+row, and an untouched one (`τ = 0`, height above `size`). -/
+theorem exact_parents_kept (t : Table) (hw : WF t) (len : Int → Int → Nat) (size : Rat) (i p : Int) (τ : Rat)
+    (hr : (i, p, τ) ∈ exactPrune t len size) (hp : ¬ p < 0) :
+    size < (heightOf t len (t.length + 1) p : Nat) ∧ ∃ q, (p, q, (0 : Rat)) ∈ exactPrune t len size := by
+  obtain ⟨n, hn, rfl, rfl, hA, hB⟩ := exact_spec t len size i p τ hr
+  have hgt : size < (heightOf t len (t.length + 1) n.parent : Nat) := by
+    by_cases h : size < (heightOf t len (t.length + 1) n.id : Nat)
+    · exact exact_untouched_up t hw len size n hn hp h
+    · rcases hB (Rat.not_lt.mp h) with ⟨h1, _⟩ | ⟨h1, _⟩
+      · exact absurd h1 hp
+      · exact h1
+  refine ⟨hgt, ?_⟩
+  obtain ⟨m, hm, hmid⟩ := mem_ids.mp (WF_parent_mem hw hn hp)
+  refine ⟨m.parent, Navis.ExactPrune.mem_exactPrune.mpr ⟨m, hm, ?_⟩⟩
+  rcases Navis.ExactPrune.exactRow_cases t len size m with
+    ⟨_, e⟩ | ⟨h1, _⟩ | ⟨h1, _⟩ | ⟨h1, _⟩ | ⟨h1, _⟩
+  · rw [e, hmid]
+  all_goals (rw [hmid] at h1; exact absurd h1 (Rat.not_le.mpr hgt))
+
+/-- The output, read as a node table, is a well-formed forest whose ids are a sublist of the input's. -/
+theorem exact_forest (t : Table) (hw : WF t) (len : Int → Int → Nat) (size : Rat) :
+    WF ((exactPrune t len size).map fun r => ({ id := r.1, parent := r.2.1 } : Node)) ∧
+    ((exactPrune t len size).map (·.1)).Sublist (ids t) := by
+  have hsub := Navis.ExactPrune.exactPrune_ids_sublist t len size
+  refine ⟨?_, hsub⟩
+  have hids : ids ((exactPrune t len size).map fun r => ({ id := r.1, parent := r.2.1 } : Node)) =
+      (exactPrune t len size).map (·.1) := by
+    simp [ids, List.map_map, Function.comp_def]
+  obtain ⟨hnd, hpos, rk, hrk⟩ := hw
+  refine ⟨hids ▸ hsub.nodup hnd, ?_, rk, ?_⟩
+  · intro m hm
+    obtain ⟨r, hr, rfl⟩ := List.mem_map.mp hm
+    obtain ⟨n, hn, hrow⟩ := Navis.ExactPrune.mem_exactPrune.mp hr
+    rw [(Navis.ExactPrune.exactRow_fst hrow).1]; exact hpos n hn
+  · intro m hm
+    obtain ⟨⟨i, p, τ⟩, hr, rfl⟩ := List.mem_map.mp hm
+    by_cases hp : p < 0
+    · exact Or.inl hp
+    · right
+      obtain ⟨_, q, hq⟩ := exact_parents_kept t ⟨hnd, hpos, rk, hrk⟩ len size i p τ hr hp
+      obtain ⟨n, hn, rfl, rfl, _⟩ := exact_spec t len size i p τ hr
+      refine ⟨?_, ?_⟩
+      · rw [hids]; exact List.mem_map.mpr ⟨_, hq, rfl⟩
+      · rcases hrk n hn with h | h
+        · exact absurd h hp
+        · exact h.2
+
 /-! ### Non-vacuity -/
 def ex : Table := [⟨1, -1, 0, 0, 0, .root⟩, ⟨2, 1, 3, 0, 0, .branch⟩, ⟨3, 2, 6, 0, 0, .end_⟩, ⟨4, 2, 3, 4, 0, .end_⟩]
 example : terminalSegs ex = [[3, 2], [4, 2]] := by decide
@@ -344,5 +533,21 @@ example : siSet 5 (.range 2 4) = some [2, 3] ∧ siSet 5 (.range (-2) 2) = some 
     siSet 5 (.list [1, -1, 3]) = some [1, 3] := by decide
 example : ids (pruneAtDepth ex (coordLen ex) 3 0) = [3] ∧ ids (pruneAtDepth ex (coordLen ex) 3 3) = [2, 3] ∧
     ids (pruneAtDepth ex (coordLen ex) 3 7) = [1, 2, 3, 4] := by decide
+
+/-! `prune_twigs(exact=True)` on `ex` (edges `2–1`: 3, `3–2`: 3, `4–2`: 4; heights `7, 4, 0, 0`). -/
+example : wfB ex = true ∧ (ids ex).map (heightOf ex (coordLen ex) (ex.length + 1)) = [7, 4, 0, 0] := by decide
+/-- `size = 2`: both tips move up their edge, `2/3` and `2/4` of the way. -/
+example : exactPrune ex (coordLen ex) 2 = [(1, -1, 0), (2, 1, 0), (3, 2, 2/3), (4, 2, 1/2)] := by decide +kernel
+/-- `size = 7/2`: the 3-long twig is too short and disappears, the 4-long one keeps `1/2` of cable. -/
+example : exactPrune ex (coordLen ex) (7/2) = [(1, -1, 0), (2, 1, 0), (4, 2, 7/8)] := by decide +kernel
+/-- `size = 4 =` height of the fork (tie, `≤`): both twigs go, the fork becomes the tip, unmoved;
+`size = 7`: only the root is left (never moved, never removed). -/
+example : exactPrune ex (coordLen ex) 4 = [(1, -1, 0), (2, 1, 0)] ∧ exactPrune ex (coordLen ex) 7 = [(1, -1, 0)] ∧
+    exactPrune ex (coordLen ex) 100 = [(1, -1, 0)] := by decide +kernel
+/-- Zero-length edges (`ex2`: all coordinates equal, lengths from `len2`): `5` keeps `1/10` … -/
+example : exactPrune ex2 len2 1 = [(1, -1, 0), (2, 1, 0), (5, 1, 1/10)] := by decide +kernel
+/-- … and with a length function that is `0` everywhere every non-root is within `size = 0` of its
+tips: only the root survives. -/
+example : exactPrune ex2 (fun _ _ => 0) 0 = [(1, -1, 0)] := by decide +kernel
 
 end Navis.Props.C12
